@@ -207,6 +207,10 @@ Definition vints (l : list cval) : option (list Z) :=
 
 Definition check (c : cval) : verdict :=
   match c with
+  (* (10 variant): a load with one key of 2^32 bytes (untouched zero memory; the models are not evaluated
+     on it) after a successful load: it must be refused and every key of the earlier load must still
+     answer (a failed load changes nothing); self-checked by the harness *)
+  | L [L [I 10; I _]; L [I ok]] => mk (ok =? 1)%Z (ok =? 1)%Z 1000
   | L [L [I 9; I lo; I cnt]; L outs] =>
     match vints outs with
     | Some zs =>
